@@ -785,7 +785,7 @@ theorem interact_spec (c : Cfg) (i : Nat) (it : Item) (s : St) (hinv : Inv s) (h
     · intro r h _; injection h with h; subst h; exact ⟨rfl, rfl⟩
     · intro r h _; injection h with h; subst h
       exact ⟨(by intro b hb; cases hb), fun _ => rfl⟩
-    · intro r h; injection h with h; subst h; simp [hv]
+    · intro r h; injection h with h; subst h; simp [hv, skipResp]
     · intro e h; cases h
   | some v =>
     obtain ⟨sv, s1, he, hpost⟩ := send_spec c i it s hinv
